@@ -14,16 +14,19 @@ def agnOp : Op → Bool
   | _ => false
 
 mutual
-/-- the fragment of the value-soundness theorem: no `top`/`vec`/`vecw`/`mem`/`ptr`, only sign-agnostic operators -/
+/-- the fragment of the value-soundness theorem: no `top`/`vec`/`vecw`/`mem`/`ptr`, only sign-agnostic operators,
+    and no unary operator applied to a literal constant (`uop.simplify` folds those at once; the constant-merging
+    rule of `eqn2_helpers` would be wrong on `(-c) + k`, a shape no simplified operand has), and no externals
+    (`eqn2_helpers` assumes `ext == 0` is false — also for slices of externals: an assumption about the loader) -/
 def Plain : Expr → Prop
   | cst .. => True
   | reg .. => True
-  | ext .. => True
-  | slc x _ _ _ _ _ => Plain x
+  | ext .. => False
+  | slc x _ _ _ _ k => k ≠ 2 ∧ Plain x
   | comp _ _ ps => PlainParts ps
   | tst t l r _ _ => Plain t ∧ Plain l ∧ Plain r
   | op o l r _ _ _ => agnOp o = true ∧ Plain l ∧ Plain r
-  | uop o r _ _ _ => (o = Op.sub ∨ o = Op.not) ∧ Plain r
+  | uop o r _ _ _ => (o = Op.sub ∨ o = Op.not) ∧ r.isCst = false ∧ Plain r
   | _ => False
 def PlainParts : List Part → Prop
   | [] => True
@@ -40,6 +43,13 @@ theorem Plain_setSf (f : Bool) (e : Expr) : Plain (e.setSf f) ↔ Plain e := by
 
 theorem Plain_isDef {e : Expr} (h : Plain e) : e.isDef = true := by
   cases e <;> simp [Plain] at h <;> rfl
+
+theorem Plain_notExt {e : Expr} (h : Plain e) : e.isExt = false := by
+  cases e <;> simp [Plain, isExt] at h ⊢
+  exact h.1
+
+theorem Plain_slcEty {e : Expr} (h : Plain e) : slcEty e ≠ 2 := by
+  cases e <;> simp [Plain, slcEty] at h ⊢
 
 theorem Plain_mkCst (x : Int) (s : Nat) : Plain (mkCst x s) := by simp [mkCst, Plain]
 
